@@ -56,6 +56,10 @@ const (
 	valueV      = int64(1000) // invoice value v in msat
 	maxKeys     = 3 // default bound on recorded HTLCs per invoice (a Space may raise it to 4)
 	allKeys     = 8 // circuit keys that exist
+	ksHoldTime  = time.Hour // RegistryConfig.KeysendHoldTime of the "kshold" kinds
+
+	hugeH = uint64(1) << 62 // amount / total token "H"
+	hugeI = uint64(1) << 63 // amount token "I", total token 'G': the int64 boundary of the SQL schema
 )
 
 var (
@@ -75,6 +79,10 @@ var (
 	ampRoots     = [4]amp.Share{{}, amp.Share(sha256.Sum256([]byte("c15 amp root 1"))), amp.Share(sha256.Sum256([]byte("c15 amp root 2"))), amp.Share(sha256.Sum256([]byte("c15 amp root 3")))}
 	ampFirstHalf = [4]amp.Share{{}, amp.Share(sha256.Sum256([]byte("c15 amp share 1a"))), amp.Share(sha256.Sum256([]byte("c15 amp share 2a"))), amp.Share(sha256.Sum256([]byte("c15 amp share 3a")))}
 	zeroAddr     [32]byte         // == invoices.BlankPayAddr
+	// the bystander invoice B that exists next to the invoice under test in "two" worlds
+	otherPreimage = mkPreimage("c15 bystander invoice preimage")
+	otherHash     = otherPreimage.Hash()
+	otherAddr     = sha256.Sum256([]byte("c15 bystander payment address"))
 	zeroHash     lntypes.Hash     // all-zero payment hash
 	zeroPreimage lntypes.Preimage // all-zero preimage
 )
@@ -108,6 +116,11 @@ type Kind struct {
 	Blinded  bool
 	JIT      string // "" | "keysend" | "amp": no invoice exists up front
 	InvDelta int32  // Terms.FinalCltvDelta of the pre-created invoice
+	// registry configuration (zero values = the lnd defaults)
+	KsHold    time.Duration // KeysendHoldTime: just-in-time keysend invoices are hold invoices
+	GcFly     bool          // GcCanceledInvoicesOnTheFly
+	GcStart   bool          // GcCanceledInvoicesOnStartup
+	AcceptAll bool          // AcceptKeySend and AcceptAMP although an invoice exists up front
 }
 
 var kinds = map[string]Kind{
@@ -119,6 +132,20 @@ var kinds = map[string]Kind{
 	"blinded": {Name: "blinded", Value: valueV, Blinded: true, InvDelta: 12},
 	"keysend": {Name: "keysend", JIT: "keysend", InvDelta: rejectDelta},
 	"ampjit":  {Name: "ampjit", JIT: "amp", AMP: true, InvDelta: rejectDelta},
+
+	// --- non-default registry configuration / kind crossings
+	// spontaneous keysend payments are held (KeysendHoldTime != 0): the just-in-time invoice is a
+	// hold invoice whose preimage is known; it is settled by SettleHodlInvoice
+	"kshold":     {Name: "kshold", JIT: "keysend", InvDelta: rejectDelta, KsHold: ksHoldTime},
+	"kshold-gcf": {Name: "kshold-gcf", JIT: "keysend", InvDelta: rejectDelta, KsHold: ksHoldTime, GcFly: true},
+	// canceled invoices are deleted when they are canceled / when the registry starts
+	"regular-gcs": {Name: "regular-gcs", Value: valueV, InvDelta: 12, GcStart: true},
+	"hold-gcf":    {Name: "hold-gcf", Value: valueV, Hold: true, InvDelta: 12, GcFly: true},
+	"amp-gcf":     {Name: "amp-gcf", Value: valueV, AMP: true, InvDelta: 12, GcFly: true, GcStart: true},
+	// spontaneous payments are accepted while the payment goes to an invoice created up front
+	"regular-jit": {Name: "regular-jit", Value: valueV, InvDelta: 12, AcceptAll: true},
+	// zero-amount hold invoice, reject delta binding
+	"holdzero": {Name: "holdzero", Value: 0, Hold: true, InvDelta: 8},
 }
 
 // margin is the final-CLTV margin an accepted HTLC must leave on this kind.
@@ -179,51 +206,69 @@ func (k Kind) invoiceHash() lntypes.Hash {
 // htlcSpec is everything the sender chooses about one HTLC.
 type htlcSpec struct {
 	// 'L' legacy, 'M' mpp record, 'P' blinded path id + total, 'K' keysend record, 'A' amp+mpp,
-	// 'Z' mpp record on an HTLC locked to the ALL-ZERO payment hash
+	// 'Z' mpp record on an HTLC locked to the ALL-ZERO payment hash,
+	// 'Y' mpp record on an HTLC locked to the payment hash of the BYSTANDER invoice, 'y' legacy HTLC locked to it,
+	// 'k' keysend record on an HTLC locked to the hash of the invoice under test (no mpp record)
 	Pay   byte
-	Addr  byte // 'r' right, 'w' wrong (non-zero), 'z' all-zero (BlankPayAddr), 0 no record
-	Tot   byte // '-' v-1, '0' v, '+' v+1, 'z' zero, 0 none
-	Amt   int64
-	Exp   string // "lo" margin-1, "ok" margin, "hi" margin+1 above the base height, "z" expiry 0
+	Addr  byte // 'r' right, 'w' wrong (non-zero), 'z' all-zero (BlankPayAddr), 'o' the bystander invoice's address, 0 no record
+	Tot   byte // '-' v-1, '0' v, '+' v+1, 'z' zero, 'H' 2^62, 'G' 2^63, 0 none
+	Amt   uint64
+	Exp   string // "lo" margin-1, "ok" margin, "hi" margin+1 above the base height, "z" expiry 0, "X" 2^31, "x" 2^32-1
 	Set   int    // amp set 1|2, 3 = the all-zero set id
 	Zero  bool   // keysend: all-zero preimage in the record
 	Shard byte   // '0' '1' 's'
 	Bad   bool   // amp: corrupted share; keysend: wrong preimage in the record
 	KsMpp bool   // keysend record together with an mpp record
+	// Icpt is what the HTLC interceptor answers for this HTLC: 0 nothing (pass), 'x' CancelSet,
+	// 'a' AmountPaid = v (the invoice then records v as the amount of this HTLC)
+	Icpt byte
 }
 
-func totalOf(t byte) int64 {
+func totalOf(t byte) uint64 {
 	switch t {
 	case '-':
-		return valueV - 1
+		return uint64(valueV - 1)
 	case '+':
-		return valueV + 1
+		return uint64(valueV + 1)
 	case 'z':
 		return 0
+	case 'H':
+		return hugeH
+	case 'G':
+		return hugeI
 	}
-	return valueV
+	return uint64(valueV)
 }
 
-// parseHTLC parses "h:<pay>:<amt>:<exp>".
+// parseHTLC parses "h:<pay>:<amt>:<exp>" ("hx:" / "ha:": with an interceptor answer).
 func parseHTLC(op string) (htlcSpec, error) {
 	f := strings.Split(op, ":")
-	if len(f) != 4 || f[0] != "h" || len(f[1]) == 0 {
+	if len(f) != 4 || len(f[1]) == 0 {
 		return htlcSpec{}, fmt.Errorf("bad htlc op %q", op)
 	}
 	var s htlcSpec
+	switch f[0] {
+	case "h":
+	case "hx":
+		s.Icpt = 'x'
+	case "ha":
+		s.Icpt = 'a'
+	default:
+		return htlcSpec{}, fmt.Errorf("bad htlc op %q", op)
+	}
 	p := f[1]
 	s.Pay = p[0]
 	switch s.Pay {
-	case 'L':
+	case 'L', 'y':
 		if len(p) != 1 {
 			return s, fmt.Errorf("bad pay %q", p)
 		}
-	case 'M', 'P', 'Z':
+	case 'M', 'P', 'Z', 'Y':
 		if len(p) != 3 {
 			return s, fmt.Errorf("bad pay %q", p)
 		}
 		s.Addr, s.Tot = p[1], p[2]
-	case 'K':
+	case 'K', 'k':
 		if len(p) != 2 {
 			return s, fmt.Errorf("bad pay %q", p)
 		}
@@ -251,28 +296,49 @@ func parseHTLC(op string) (htlcSpec, error) {
 	default:
 		return s, fmt.Errorf("bad pay %q", p)
 	}
-	a, err := strconv.ParseInt(f[2], 10, 64)
-	if err != nil {
-		return s, err
+	switch f[2] {
+	case "H":
+		s.Amt = hugeH
+	case "I":
+		s.Amt = hugeI
+	default:
+		a, err := strconv.ParseUint(f[2], 10, 64)
+		if err != nil {
+			return s, err
+		}
+		s.Amt = a
 	}
-	s.Amt = a
 	s.Exp = f[3]
-	if s.Exp != "lo" && s.Exp != "ok" && s.Exp != "hi" && s.Exp != "z" {
+	switch s.Exp {
+	case "lo", "ok", "hi", "z", "x", "X":
+	default:
 		return s, fmt.Errorf("bad expiry %q", f[3])
 	}
 	return s, nil
 }
 
+// recordedAmt is the amount the registry works with: the wire amount unless the interceptor
+// replaced it.
+func (s htlcSpec) recordedAmt() uint64 {
+	if s.Icpt == 'a' {
+		return uint64(valueV)
+	}
+	return s.Amt
+}
+
 // declaredTotal is the total the HTLC declares; an HTLC without a total record declares
 // itself to be the whole payment.
-func (s htlcSpec) declaredTotal() int64 {
+func (s htlcSpec) declaredTotal() uint64 {
 	if s.Tot == 0 {
-		return s.Amt
+		return s.recordedAmt()
 	}
 	return totalOf(s.Tot)
 }
 
 func (s htlcSpec) hasTotal() bool { return s.Tot != 0 }
+
+// foreign reports whether the HTLC refers to the bystander invoice (its hash or its address).
+func (s htlcSpec) foreign() bool { return s.Pay == 'Y' || s.Pay == 'y' || s.Addr == 'o' }
 
 // hash is the payment hash the HTLC is locked to.
 func (s htlcSpec) hash(k Kind) lntypes.Hash {
@@ -281,6 +347,8 @@ func (s htlcSpec) hash(k Kind) lntypes.Hash {
 		return ampChild(s.Set, s.Shard).Hash
 	case s.Pay == 'Z':
 		return zeroHash
+	case s.Pay == 'Y' || s.Pay == 'y':
+		return otherHash
 	case s.Pay == 'K':
 		return ksHash
 	case k.JIT == "keysend":
@@ -299,6 +367,10 @@ func (s htlcSpec) absExpiry(k Kind) uint32 {
 		e++
 	case "z":
 		return 0
+	case "X":
+		return 1 << 31
+	case "x":
+		return 1<<32 - 1
 	}
 	return uint32(e)
 }
@@ -329,6 +401,8 @@ func addrOf(a byte) [32]byte {
 		return wrongAddr
 	case 'z':
 		return zeroAddr
+	case 'o':
+		return otherAddr
 	}
 	return rightAddr
 }
@@ -336,12 +410,23 @@ func addrOf(a byte) [32]byte {
 func (s htlcSpec) payload() *payload {
 	p := &payload{}
 	switch s.Pay {
-	case 'M', 'Z':
+	case 'M', 'Z', 'Y':
 		p.mpp = record.NewMPP(lnwire.MilliSatoshi(totalOf(s.Tot)), addrOf(s.Addr))
 	case 'P':
 		a := chainhash.Hash(addrOf(s.Addr))
 		p.pathID = &a
 		p.totalMs = lnwire.MilliSatoshi(totalOf(s.Tot))
+	case 'k':
+		// a keysend record on an HTLC that pays the invoice under test: the invoice's own
+		// preimage ('r'), another preimage ('w'), the all-zero preimage ('z')
+		pre := invPreimage
+		if s.Bad {
+			pre = ksWrongPre
+		}
+		if s.Zero {
+			pre = zeroPreimage
+		}
+		p.custom = record.CustomSet{record.KeySendType: append([]byte{}, pre[:]...)}
 	case 'K':
 		pre := ksPreimage
 		if s.Bad {
@@ -366,11 +451,21 @@ func (s htlcSpec) payload() *payload {
 	return p
 }
 
+// circuitKey: the keys come from a few channels ("links") and share their components the way
+// real circuit keys do -- every channel numbers its HTLCs from 0, so different keys have EQUAL
+// htlc ids on different channels and different ids on the same channel:
+//
+//	k1=(chan 1, htlc 0)  k2=(chan 2, htlc 0)  k3=(chan 1, htlc 1)  k4=(chan 2, htlc 1)
+//	k5=(chan 3, htlc 0)  k6=(chan 4, htlc 0)  k7=(chan 3, htlc 1)  k8=(chan 4, htlc 1)
+//
+// (k5.. are the keys of the concurrent links of the interleaving part). A store that matches
+// an HTLC by one component only confuses two of them.
 func circuitKey(k int) invpkg.CircuitKey {
-	// one channel ("link") per key: concurrent notifications come from several links
+	g := (k - 1) / 4
+	i := (k - 1) % 4
 	return invpkg.CircuitKey{
-		ChanID: lnwire.ShortChannelID{BlockHeight: 700000, TxIndex: uint32(k), TxPosition: 0},
-		HtlcID: uint64(10 + k),
+		ChanID: lnwire.ShortChannelID{BlockHeight: 700000, TxIndex: uint32(1 + 2*g + i%2), TxPosition: 0},
+		HtlcID: uint64(i / 2),
 	}
 }
 
@@ -662,9 +757,36 @@ func (n *nullNotifier) RegisterBlockEpochNtfn(*chainntnfs.BlockEpoch) (*chainntn
 	return &chainntnfs.BlockEpochEvent{Epochs: n.ch, Cancel: func() {}}, nil
 }
 
-type passInterceptor struct{}
+// keyedInterceptor is the RegistryConfig.HtlcInterceptor: it answers per circuit key what
+// the HTLC's spec says (nothing / CancelSet / AmountPaid).
+type keyedInterceptor struct {
+	mu  sync.Mutex
+	ans map[invpkg.CircuitKey]byte
+}
 
-func (passInterceptor) Intercept(invpkg.HtlcModifyRequest, func(invpkg.HtlcModifyResponse)) error {
+func (k *keyedInterceptor) set(ck invpkg.CircuitKey, a byte) {
+	k.mu.Lock()
+	defer k.mu.Unlock()
+	if k.ans == nil {
+		k.ans = map[invpkg.CircuitKey]byte{}
+	}
+	if a == 0 {
+		delete(k.ans, ck)
+		return
+	}
+	k.ans[ck] = a
+}
+
+func (k *keyedInterceptor) Intercept(req invpkg.HtlcModifyRequest, respond func(invpkg.HtlcModifyResponse)) error {
+	k.mu.Lock()
+	a := k.ans[req.ExitHtlcCircuitKey]
+	k.mu.Unlock()
+	switch a {
+	case 'x':
+		respond(invpkg.HtlcModifyResponse{CancelSet: true})
+	case 'a':
+		respond(invpkg.HtlcModifyResponse{AmountPaid: lnwire.MilliSatoshi(valueV)})
+	}
 	return nil
 }
 
@@ -687,10 +809,11 @@ func (v Verdict) String() string {
 type htlcObs struct {
 	Key     int    `json:"k"`
 	State   string `json:"st"`
-	Amt     int64  `json:"amt"`
-	Total   int64  `json:"tot"`
+	Amt     uint64 `json:"amt"`
+	Total   uint64 `json:"tot"`
 	Expiry  uint32 `json:"exp"`
 	AccH    uint32 `json:"acch"`
+	AccT    int64  `json:"acct"` // accept time, seconds after the start time (not part of canon)
 	Set     int    `json:"set,omitempty"`   // amp set number (0 = none, 9 = unknown set id)
 	Child   int    `json:"child,omitempty"` // amp child index
 	HasPre  bool   `json:"pre,omitempty"`   // amp preimage stored
@@ -701,7 +824,7 @@ type htlcObs struct {
 type ampObs struct {
 	Set   int    `json:"set"`
 	State string `json:"st"`
-	Paid  int64  `json:"paid"`
+	Paid  uint64 `json:"paid"`
 	Keys  []int  `json:"keys"`
 }
 
@@ -709,8 +832,8 @@ type invObs struct {
 	Found    bool      `json:"found"`
 	Err      string    `json:"err,omitempty"`
 	State    string    `json:"st,omitempty"`
-	Value    int64     `json:"value,omitempty"`
-	AmtPaid  int64     `json:"paid,omitempty"`
+	Value    uint64    `json:"value,omitempty"`
+	AmtPaid  uint64    `json:"paid,omitempty"`
 	HasPre   bool      `json:"pre,omitempty"`
 	PreOK    bool      `json:"preok,omitempty"`
 	AddrReq  bool      `json:"addrreq,omitempty"`
@@ -787,19 +910,19 @@ func setNumber(id [32]byte) int {
 }
 
 func observe(inv *invpkg.Invoice) invObs {
-	o := invObs{Found: true, State: inv.State.String(), Value: int64(inv.Terms.Value), AmtPaid: int64(inv.AmtPaid),
+	o := invObs{Found: true, State: inv.State.String(), Value: uint64(inv.Terms.Value), AmtPaid: uint64(inv.AmtPaid),
 		CltvD: inv.Terms.FinalCltvDelta, IsAMP: inv.IsAMP(), Blinded: inv.IsBlinded(), HodlInv: inv.HodlInvoice}
 	if inv.Terms.Features != nil {
 		o.AddrReq = inv.Terms.Features.RequiresFeature(lnwire.PaymentAddrRequired)
 	}
-	o.AddrOK = inv.Terms.PaymentAddr == rightAddr
+	o.AddrOK = inv.Terms.PaymentAddr == rightAddr || inv.Terms.PaymentAddr == otherAddr
 	if p := inv.Terms.PaymentPreimage; p != nil {
 		o.HasPre = true
-		o.PreOK = p.Hash() == invHash || p.Hash() == ksHash
+		o.PreOK = p.Hash() == invHash || p.Hash() == ksHash || p.Hash() == otherHash
 	}
 	for ck, h := range inv.Htlcs {
-		ho := htlcObs{Key: keyIndex(ck), State: htlcStateName(h.State), Amt: int64(h.Amt), Total: int64(h.MppTotalAmt),
-			Expiry: h.Expiry, AccH: h.AcceptHeight}
+		ho := htlcObs{Key: keyIndex(ck), State: htlcStateName(h.State), Amt: uint64(h.Amt), Total: uint64(h.MppTotalAmt),
+			Expiry: h.Expiry, AccH: h.AcceptHeight, AccT: int64(h.AcceptTime.Sub(startTime) / time.Second)}
 		if h.AMP != nil {
 			ho.Set = setNumber(h.AMP.Record.SetID())
 			ho.Child = int(h.AMP.Record.ChildIndex())
@@ -812,7 +935,7 @@ func observe(inv *invpkg.Invoice) invObs {
 	}
 	sort.Slice(o.Htlcs, func(i, j int) bool { return o.Htlcs[i].Key < o.Htlcs[j].Key })
 	for id, st := range inv.AMPState {
-		a := ampObs{Set: setNumber(id), State: htlcStateName(st.State), Paid: int64(st.AmtPaid)}
+		a := ampObs{Set: setNumber(id), State: htlcStateName(st.State), Paid: uint64(st.AmtPaid)}
 		for ck := range st.InvoiceKeys {
 			a.Keys = append(a.Keys, keyIndex(ck))
 		}
@@ -827,21 +950,30 @@ func observe(inv *invpkg.Invoice) invObs {
 type side struct {
 	name   string
 	kind   Kind
+	two    bool
 	raw    invpkg.InvoiceDB
 	reg    *invpkg.InvoiceRegistry
 	clk    *vclock
 	dbClk  *clock.TestClock
 	hodl   chan interface{}
+	icpt   *keyedInterceptor
 	calls  dbCalls
 	closer func()
 	gate   *txGate
 	// verdict history per circuit key: 0 none, 1 held, 2 settle ordered, 3 cancel ordered
-	hist    map[int]int
+	hist map[int]int
+	// armed: the circuit keys for which THIS registry instance was told "held" while the invoice
+	// was open, i.e. for which it runs an auto-release timer and holds a subscription. A
+	// restart empties it: timers and subscriptions live in memory only and are re-established
+	// by the links' replays.
+	armed   map[int]bool
+	starts  int
 	stalled string
 }
 
-func newSide(name string, k Kind) (*side, error) {
-	s := &side{name: name, kind: k, hodl: make(chan interface{}, 256), hist: map[int]int{}, gate: newTxGate()}
+func newSide(name string, k Kind, two bool) (*side, error) {
+	s := &side{name: name, kind: k, two: two, hodl: make(chan interface{}, 256), hist: map[int]int{}, armed: map[int]bool{},
+		gate: newTxGate(), icpt: &keyedInterceptor{}}
 	s.dbClk = clock.NewTestClock(startTime)
 	s.clk = newVclock(startTime)
 	var err error
@@ -853,24 +985,9 @@ func newSide(name string, k Kind) (*side, error) {
 	if err != nil {
 		return nil, fmt.Errorf("open %s store: %w", name, err)
 	}
-	// The expiry watcher gets a clock of its own that never advances and no block
-	// epochs: invoice expiry (time- or height-based) is not an event of this universe.
-	watcher := invpkg.NewInvoiceExpiryWatcher(
-		clock.NewTestClock(startTime), 0, uint32(baseHeight), nil,
-		&nullNotifier{ch: make(chan *chainntnfs.BlockEpoch)},
-	)
-	cfg := &invpkg.RegistryConfig{
-		FinalCltvRejectDelta: rejectDelta,
-		HtlcHoldDuration:     holdDur,
-		Clock:                s.clk,
-		AcceptKeySend:        k.JIT == "keysend",
-		AcceptAMP:            k.JIT == "amp",
-		HtlcInterceptor:      passInterceptor{},
-	}
-	s.reg = invpkg.NewRegistry(&pointDB{InvoiceDB: s.raw, calls: &s.calls, gate: s.gate}, watcher, cfg)
-	if err := s.reg.Start(); err != nil {
+	if err := s.start(); err != nil {
 		s.closer()
-		return nil, fmt.Errorf("registry start (%s): %w", name, err)
+		return nil, err
 	}
 	if k.JIT == "" {
 		if _, err := s.reg.AddInvoice(context.Background(), k.invoice(), k.invoiceHash()); err != nil {
@@ -878,7 +995,55 @@ func newSide(name string, k Kind) (*side, error) {
 			return nil, fmt.Errorf("add invoice (%s): %w", name, err)
 		}
 	}
+	if two {
+		if _, err := s.reg.AddInvoice(context.Background(), bystanderInvoice(), otherHash); err != nil {
+			s.close()
+			return nil, fmt.Errorf("add bystander invoice (%s): %w", name, err)
+		}
+	}
 	return s, nil
+}
+
+// start builds and starts a registry on the side's store (the first one, or the next one after a
+// restart; the clocks keep running).
+func (s *side) start() error {
+	// The expiry watcher gets a clock of its own that never advances and no block
+	// epochs: invoice expiry (time- or height-based) is not an event of this universe.
+	watcher := invpkg.NewInvoiceExpiryWatcher(
+		clock.NewTestClock(startTime), 0, uint32(baseHeight), nil,
+		&nullNotifier{ch: make(chan *chainntnfs.BlockEpoch)},
+	)
+	k := s.kind
+	cfg := &invpkg.RegistryConfig{
+		FinalCltvRejectDelta:        rejectDelta,
+		HtlcHoldDuration:            holdDur,
+		Clock:                       s.clk,
+		AcceptKeySend:               k.JIT == "keysend" || k.AcceptAll,
+		AcceptAMP:                   k.JIT == "amp" || k.AcceptAll,
+		KeysendHoldTime:             k.KsHold,
+		GcCanceledInvoicesOnTheFly:  k.GcFly,
+		GcCanceledInvoicesOnStartup: k.GcStart,
+		HtlcInterceptor:             s.icpt,
+	}
+	s.reg = invpkg.NewRegistry(&pointDB{InvoiceDB: s.raw, calls: &s.calls, gate: s.gate}, watcher, cfg)
+	s.starts++
+	if err := s.reg.Start(); err != nil {
+		s.reg = nil
+		return fmt.Errorf("registry start (%s): %w", s.name, err)
+	}
+	return nil
+}
+
+// restart stops the registry and starts a new one on the same store: the hodl subscriptions and
+// the auto-release timers are gone (the links come back with a new channel and replay).
+func (s *side) restart() error {
+	if s.reg != nil {
+		_ = s.reg.Stop()
+		s.reg = nil
+	}
+	s.hodl = make(chan interface{}, 256)
+	s.armed = map[int]bool{}
+	return s.start()
 }
 
 func (s *side) close() {
@@ -890,6 +1055,38 @@ func (s *side) close() {
 		s.closer()
 		s.closer = nil
 	}
+}
+
+// bystanderInvoice is the second invoice of a "two" world: a regular invoice with its own
+// hash, preimage and payment address. No event of the alphabet pays it (none carries its hash
+// together with its address), so it must stay untouched.
+func bystanderInvoice() *invpkg.Invoice {
+	p := otherPreimage
+	return &invpkg.Invoice{
+		CreationDate:   startTime,
+		Memo:           []byte("c15 bystander"),
+		PaymentRequest: []byte("lnbc-c15-bystander"),
+		Terms: invpkg.ContractTerm{
+			FinalCltvDelta:  12,
+			Expiry:          1000 * time.Hour,
+			Value:           lnwire.MilliSatoshi(valueV),
+			PaymentAddr:     otherAddr,
+			PaymentPreimage: &p,
+			Features:        kinds["regular"].features(),
+		},
+	}
+}
+
+// lookupBystander reads the bystander invoice.
+func (s *side) lookupBystander() invObs {
+	inv, err := s.reg.LookupInvoice(context.Background(), otherHash)
+	if err != nil {
+		if errors.Is(err, invpkg.ErrInvoiceNotFound) || errors.Is(err, invpkg.ErrNoInvoicesCreated) {
+			return invObs{}
+		}
+		return invObs{Err: firstLine(err.Error())}
+	}
+	return observe(&inv)
 }
 
 // lookup reads the one invoice of the universe through the registry.
@@ -951,6 +1148,7 @@ func (s *side) drain() []Verdict {
 }
 
 func (s *side) notify(spec htlcSpec, key int, height int32) Verdict {
+	s.icpt.set(circuitKey(key), spec.Icpt)
 	res, err := s.reg.NotifyExitHopHtlc(
 		spec.hash(s.kind), lnwire.MilliSatoshi(spec.Amt), spec.absExpiry(s.kind), height,
 		circuitKey(key), s.hodl, nil, spec.payload(),
@@ -964,12 +1162,13 @@ func (s *side) notify(spec htlcSpec, key int, height int32) Verdict {
 var stallGuard = 180 * time.Second
 
 // timeout advances both clocks by one hold duration and waits until the registry has
-// delivered the cancel resolution of every HTLC that was accepted on the open invoice.
+// delivered the cancel resolution of every HTLC that is accepted on the open invoice and for
+// which this registry instance runs a timer (all of them, unless the registry was restarted).
 func (s *side) timeout(pre invObs) []Verdict {
 	due := map[int]bool{}
 	if pre.Found && pre.State == "Open" {
 		for _, h := range pre.Htlcs {
-			if h.State == "acc" {
+			if h.State == "acc" && s.armed[h.Key] {
 				due[h.Key] = true
 			}
 		}
